@@ -31,12 +31,27 @@ def _lib():
         pkg = S.import_with_cooperative_locks("permuta")
         assert os.path.abspath(pkg.__file__).startswith(os.path.abspath(REPO) + os.sep), pkg.__file__
         import permuta.perm_sets.permset as permset
-        S.cooperative_locks(permset)
-        _SNAP[0] = S.snapshot_state(permset)
+        mods = _ps_modules()
+        for m in mods:
+            S.cooperative_locks(m)
+        _SNAP[0] = [(m, S.snapshot_state(m)) for m in mods]
         _PATCHED[0] = True
     from permuta import Av, Perm
     import permuta.perm_sets.permset as permset
     return Av, Perm, permset
+
+
+def _ps_modules():
+    """Every module of permuta.perm_sets (the traced files): their locks are cooperative and their
+    module-, class- and singleton-level state is put back before every execution."""
+    return [m for n, m in sorted(sys.modules.items())
+            if n.startswith("permuta.perm_sets.") and m is not None]
+
+
+def _reset_state():
+    for m, snap in _SNAP[0]:
+        S.restore_state(m, snap)
+        S.reset_locks(m)
 
 
 def watched_files():
@@ -116,8 +131,7 @@ class Harness:
 
     def setup(self):
         Av, Perm, permset = _lib()
-        S.restore_state(permset, _SNAP[0])
-        S.reset_locks(permset)
+        _reset_state()
         Av.clear_cache()
         objs = [A.mk(d) for d in self.basis]
         av = None if self.own else Av.from_iterable(objs)
